@@ -5,9 +5,11 @@ CONSTANTS
   MaxFaults = 3
   MaxCrash = 1
   MaxEnv = 1
-  MaxAttempts = 2
-  SettleRuns = 3
+  MaxAttempts = 3
+  SettleRuns = 4
   EnvAllowed = {"spokevanish", "hubvanish", "hubcompact", "foreign", "foreignraw"}
+  Chunks = 3
+  PutAllowed = {"dropBefore", "dropAfter", "short", "shortDrop", "corrupt", "backpressure", "idxfail"}
   MinRuns = 0
   Emit = TRUE
 INVARIANTS EmitInv
